@@ -166,13 +166,12 @@ def run(case):
         nb, no = want.shape[1], len(ops)
         if sv.shape != (T, nb * no, 3):
             raise Violation('symmetrize-one-image-per-operation', f'{how}: shape {sv.shape} vs {(T, nb * no, 3)}')
-        blocks = sv.reshape(T, nb, no, 3)
-        wimg = np.einsum('kij,tbj->tbki', ops, want)
-        # compare as multisets per vector (the order of the images is not specified)
+        wimg = np.einsum('kij,tbj->tbki', ops, want).reshape(T, nb * no, 3)
+        # compare as one multiset per frame: neither the order of the images nor the grouping of the rows (per vector or per
+        # operation) is specified; every (vector, operation) image must occur with its multiplicity and nothing else
         for t in range(T):
-            for b in range(nb):
-                if oracle.match_rows(wimg[t, b], blocks[t, b], 1e-6) is None:
-                    raise Violation('symmetrize-images-under-the-group', f'{how}, group {name}: frame {t} vector {b}: images {np.round(blocks[t, b], 4).tolist()} vs {np.round(wimg[t, b], 4).tolist()}')
+            if oracle.match_rows(wimg[t], sv[t], 1e-6) is None:
+                raise Violation('symmetrize-images-under-the-group', f'{how}, group {name}: frame {t}: rows {np.round(sv[t], 4).tolist()[:8]} are not the images {np.round(wimg[t], 4).tolist()[:8]} of the {nb} vectors under the {no} operations')
     # spherical representation is invertible
     sph = np.asarray(gcall(lambda: o.vectors_spherical), float)
     az, el, r = np.radians(sph[..., 0]), np.radians(sph[..., 1]), sph[..., 2]
